@@ -378,12 +378,74 @@ fn grid_strategy() -> impl Strategy<Value = GridCase> {
         .prop_map(|(ty, axes, points, indexes)| GridCase { ty, axes, points, indexes })
 }
 
+/// Edge collections of 2^k + d elements (d = -1, 0, 1, 2), k up to 21 / 22: every edge value, the
+/// value below and the value above it are looked up (the model is arithmetic: edges are 3i + 1).
+#[derive(Clone, Debug, Serialize, Deserialize, Hash)]
+pub struct EdgesHugeCase {
+    pub n_edges: usize,
+    /// the edge values are handed over in decreasing order
+    pub reversed: bool,
+}
+
+pub fn check_edges_huge(c: &EdgesHugeCase) -> CheckResult {
+    let n = c.n_edges;
+    let mut vals: Vec<i64> = (0..n as i64).map(|i| 3 * i + 1).collect();
+    if c.reversed {
+        vals.reverse();
+    }
+    let edges = Edges::from(vals);
+    ensure!(edges.len() == n, "wrong-value", "Edges built from {} distinct values has {} edges", n, edges.len());
+    let last = 3 * (n as i64 - 1) + 1;
+    let mut bad: Option<String> = None;
+    let mut probes = 0u64;
+    for i in 0..n as i64 {
+        for v in [3 * i, 3 * i + 1, 3 * i + 2] {
+            let want = if v < 1 || v >= last || n < 2 { None } else { Some((((v - 1) / 3) as usize, ((v - 1) / 3) as usize + 1)) };
+            let got = edges.indices_of(&v);
+            probes += 1;
+            if got != want && bad.is_none() {
+                bad = Some(format!("Edges::indices_of({}) = {:?} on {} edges 1, 4, 7, ..., {}: edge_i <= v < edge_(i+1) holds for {:?}", v, got, n, last, want));
+            }
+        }
+    }
+    if let Some(b) = bad {
+        fail!("wrong-value", "{}", b);
+    }
+    let bins = Bins::new(edges);
+    ensure!(bins.len() == n.saturating_sub(1), "wrong-value", "Bins::len = {} for {} edges", bins.len(), n);
+    for v in [0i64, 1, 2, 4, last - 2, last - 1, last, last + 1] {
+        let want = if v < 1 || v >= last || n < 2 { None } else { Some(((v - 1) / 3) as usize) };
+        ensure!(bins.index_of(&v) == want, "wrong-value", "Bins::index_of({}) = {:?}, expected {:?} ({} edges)", v, bins.index_of(&v), want, n);
+    }
+    let _ = probes;
+    Ok(Info::new(n >= 3).class("edges:2^k+d").class_if(n >= 1 << 20, "edges>=2^20"))
+}
+
+fn enum_edges_huge(ctx: &Ctx, max_k: u32) {
+    let mut item = 0u64;
+    for k in (8..=max_k).rev() {
+        for d in [-1i64, 0, 1, 2] {
+            for reversed in [false, true] {
+                item += 1;
+                if !ctx.mine(item) || (reversed && k > 16) {
+                    continue;
+                }
+                let c = EdgesHugeCase { n_edges: ((1i64 << k) + d) as usize, reversed };
+                if !ctx.enum_case("edges-huge", &c, &check_edges_huge) {
+                    return;
+                }
+            }
+        }
+    }
+}
+
 pub fn run_c13(ctx: &Ctx) {
     let t = ctx.tier();
     enum_edges(ctx, t.pick(6, 7));
     ctx.run_proptest("edges", t.pick(40_000, 1_000_000), edges_strategy(), &check_edges);
     ctx.run_proptest("grid", t.pick(40_000, 1_000_000), grid_strategy(), &check_grid);
     ctx.run_proptest("edges-long", t.pick(1_000, 30_000), edges_long_strategy(t.pick(5_000, 10_000)), &check_edges);
+    enum_edges_huge(ctx, t.pick(21, 22));
 }
 
 // ---------------------------------------------------------------------------------------
@@ -557,11 +619,126 @@ fn hist_strategy(max_ops: usize) -> impl Strategy<Value = HistCase> {
         })
 }
 
+/// Histories on a grid whose first axis has hundreds of edges (255..1025, around powers of two),
+/// with observations on the first / last edge, next to them and beyond.
+fn hist_wide_strategy(max_ops: usize) -> impl Strategy<Value = HistCase> {
+    (
+        proptest::sample::select(vec![HTy::I32, HTy::N64, HTy::I64]),
+        prop_oneof![2 => proptest::sample::select(vec![255usize, 256, 257, 511, 512, 513, 1023, 1024, 1025]), 1 => 200usize..1100],
+        prop_oneof![2 => Just(Vec::<i64>::new()), 1 => proptest::collection::vec(-4i64..5, 2..5)],
+        any::<bool>(),
+    )
+        .prop_flat_map(move |(ty, m, second, decreasing)| {
+            let mut first: Vec<i64> = (0..m as i64).map(|k| 2 * k - 100).collect();
+            if decreasing {
+                first.reverse();
+            }
+            let hi = 2 * (m as i64 - 1) - 100;
+            let c0 = prop_oneof![2 => Just(hi), 1 => Just(hi - 1), 1 => Just(hi + 1), 1 => Just(hi - 2), 1 => Just(-100i64), 1 => Just(-101i64), 4 => -102i64..hi + 3].boxed();
+            let axes = if second.is_empty() { vec![first] } else { vec![first, second.clone()] };
+            let coords: Vec<BoxedStrategy<i64>> = if second.is_empty() { vec![c0] } else { vec![c0, (-6i64..7).boxed()] };
+            (Just((ty, axes)), proptest::collection::vec(coords, 0..max_ops), proptest::collection::vec(any::<u16>(), max_ops), prop_oneof![3 => Just(0u8), 1 => 1u8..4])
+        })
+        .prop_map(|((ty, axes), points, perm_keys, edges_mode)| HistCase { ty, axes, points, perm_keys, edges_mode })
+}
+
+/// HistogramExt::histogram on matrices of tens of thousands of rows (row counts around 65536
+/// and 131072), most of them in one bin. The rows are expanded from (rows, class, seed) inside
+/// the check (140 000 points would not fit a replay file sensibly).
+#[derive(Clone, Debug, Serialize, Deserialize, Hash)]
+pub struct HistMatCase {
+    pub ty: HTy,
+    pub axes: Vec<Vec<i64>>,
+    pub rows: usize,
+    pub class: u8,
+    pub seed: u64,
+    pub column_major: bool,
+}
+
+pub fn check_hist_matrix_t<T: HEl>(c: &HistMatCase) -> CheckResult {
+    let nd = c.axes.len();
+    if nd == 0 || c.rows == 0 {
+        return Ok(Info::discarded());
+    }
+    let sorted: Vec<Vec<T>> = c.axes.iter().map(|a| a.iter().map(|&v| T::from_i(v)).collect::<BTreeSet<T>>().into_iter().collect()).collect();
+    let shape: Vec<usize> = sorted.iter().map(|s| s.len().saturating_sub(1)).collect();
+    let grid = Grid::from(c.axes.iter().map(|a| Bins::new(Edges::from(a.iter().map(|&v| T::from_i(v)).collect::<Vec<T>>()))).collect::<Vec<_>>());
+    let mut next = crate::gen::splitmix(c.seed);
+    let lo: Vec<i64> = c.axes.iter().map(|a| a.iter().min().cloned().unwrap_or(0)).collect();
+    let hi: Vec<i64> = c.axes.iter().map(|a| a.iter().max().cloned().unwrap_or(0)).collect();
+    let random_point = |next: &mut dyn FnMut() -> u64| -> Vec<i64> { (0..nd).map(|k| lo[k] - 1 + (next() % (hi[k] - lo[k] + 3) as u64) as i64).collect() };
+    let home = random_point(&mut next);
+    let mut flat: Vec<i64> = Vec::with_capacity(c.rows * nd);
+    for r in 0..c.rows {
+        let p = match c.class % 4 {
+            0 => home.clone(),
+            1 => {
+                if r % 1000 == 999 {
+                    random_point(&mut next)
+                } else {
+                    home.clone()
+                }
+            }
+            2 => random_point(&mut next),
+            _ => {
+                if r < 65_536 {
+                    home.clone()
+                } else {
+                    random_point(&mut next)
+                }
+            }
+        };
+        flat.extend(p);
+    }
+    let mut model: Model = BTreeMap::new();
+    for r in 0..c.rows {
+        let idx: Option<Vec<usize>> = (0..nd).map(|k| model_bin(&sorted[k], &T::from_i(flat[r * nd + k]))).collect();
+        if let Some(idx) = idx {
+            *model.entry(idx).or_insert(0) += 1;
+        }
+    }
+    let m_c = Array2::from_shape_vec((c.rows, nd), flat.iter().map(|&v| T::from_i(v)).collect::<Vec<T>>()).unwrap();
+    let hm = if c.column_major {
+        let mut m_f = Array2::from_elem((c.rows, nd).f(), T::from_i(0));
+        m_f.assign(&m_c);
+        catch(|| m_f.histogram(grid))
+    } else {
+        catch(|| m_c.histogram(grid))
+    };
+    let hm = match hm {
+        Ok(h) => h,
+        Err(p) => fail!("panic", "histogram() of a {} x {} matrix panicked: {} (edges {:?}, class {}, seed {})", c.rows, nd, p, c.axes, c.class, c.seed),
+    };
+    if let Err(e) = counts_equal(&hm.counts(), &model, &shape) {
+        fail!("wrong-value", "histogram() of a {} x {} matrix: {} (edges {:?}; rows expanded from class {}, seed {}; most rows at {:?})", c.rows, nd, e, c.axes, c.class, c.seed, home);
+    }
+    let biggest = model.values().max().cloned().unwrap_or(0);
+    Ok(Info::new(biggest >= 2 && shape.iter().all(|&s| s >= 1)).class("matrix-form:long").class_if(biggest >= 65_536, "one-bin>=65536-observations").class_if(c.rows >= 65_536, "rows>=65536"))
+}
+
+pub fn check_hist_matrix(c: &HistMatCase) -> CheckResult {
+    dispatch_h!(c.ty, check_hist_matrix_t(c))
+}
+
+fn hist_matrix_strategy(max_rows: usize) -> impl Strategy<Value = HistMatCase> {
+    (
+        proptest::sample::select(vec![HTy::I32, HTy::N64, HTy::I64]),
+        proptest::collection::vec(proptest::collection::vec(-6i64..7, 2..7), 1..=2),
+        crate::gen::long_len(20_000, max_rows),
+        0u8..4,
+        any::<u64>(),
+        any::<bool>(),
+    )
+        .prop_map(|(ty, axes, rows, class, seed, column_major)| HistMatCase { ty, axes, rows, class, seed, column_major })
+}
+
 pub fn run_c11(ctx: &Ctx) {
     let t = ctx.tier();
     ctx.run_proptest("hist", t.pick(40_000, 1_000_000), hist_strategy(t.pick(60, 120)), &check_hist);
     // long histories (thousands of observations)
     ctx.run_proptest("hist-long", t.pick(300, 8_000), hist_strategy(t.pick(3_000, 6_000)), &check_hist);
+    ctx.run_proptest("hist-wide", t.pick(1_500, 40_000), hist_wide_strategy(t.pick(120, 300)), &check_hist);
+    ctx.run_proptest("hist-matrix-long", t.pick(80, 2_400), hist_matrix_strategy(t.pick(140_000, 200_000)), &check_hist_matrix);
 }
 
 // ---------------------------------------------------------------------------------------
@@ -945,10 +1122,10 @@ pub fn run_c12(ctx: &Ctx) {
 }
 
 pub fn replayers_c13() -> Vec<(&'static str, ReplayFn)> {
-    vec![("edges", |v| replay_with::<EdgeCase>(v, &check_edges)), ("grid", |v| replay_with::<GridCase>(v, &check_grid)), ("edges-long", |v| replay_with::<EdgeCase>(v, &check_edges))]
+    vec![("edges", |v| replay_with::<EdgeCase>(v, &check_edges)), ("grid", |v| replay_with::<GridCase>(v, &check_grid)), ("edges-long", |v| replay_with::<EdgeCase>(v, &check_edges)), ("edges-huge", |v| replay_with::<EdgesHugeCase>(v, &check_edges_huge))]
 }
 pub fn replayers_c11() -> Vec<(&'static str, ReplayFn)> {
-    vec![("hist", |v| replay_with::<HistCase>(v, &check_hist)), ("hist-long", |v| replay_with::<HistCase>(v, &check_hist))]
+    vec![("hist", |v| replay_with::<HistCase>(v, &check_hist)), ("hist-long", |v| replay_with::<HistCase>(v, &check_hist)), ("hist-wide", |v| replay_with::<HistCase>(v, &check_hist)), ("hist-matrix-long", |v| replay_with::<HistMatCase>(v, &check_hist_matrix))]
 }
 pub fn replayers_c12() -> Vec<(&'static str, ReplayFn)> {
     vec![("strat", |v| replay_with::<StratCase>(v, &check_strat))]
